@@ -9,6 +9,7 @@ drv_c18 — ops (one per line):
   `comp <flage> <pos> <spec>`               -> `<root> <0|1> <b1,b2,…|->` | `panic`
   `frombranch <index> <leafhex> <b1,b2,…|->` -> hex root
   `multi <ncpu> <execerhex|->:<hash>,…`     -> `<root> <titlehex>:<start>:<count>:<hash>;…` | `panic`
+  `deldup <h1,h2,…|->`                      -> `<kept hashes|-> <0|1 = block rejected with ErrTxDup>`
 leaf-list `<spec>`: comma separated tokens `g<seed>.<start>.<count>` (generated leaves),
 `x<64 hex>` (explicit leaf), `z` (nil leaf), `t<k>` (append a copy of the last k leaves), `e` (nothing).
 -/
@@ -101,6 +102,9 @@ def handle (line : String) : String :=
           let cs' := cs.map (fun c => s!"{toHexOrDash c.title}:{c.start}:{c.count}:{hexB c.hash}")
           s!"{hexB r} {if cs'.isEmpty then "-" else ";".intercalate cs'}"
       | _, _ => "bad-op"
+  | ["deldup", hs] => match parseBranch hs with
+      | some hs => s!"{showBranch (C18.delDupTx hs)} {if C18.dupRejected hs then 1 else 0}"
+      | none => "bad-op"
   | _ => "bad-op"
 
 def main : IO Unit := do
